@@ -236,11 +236,11 @@ def failing_theorems(pid, log):
             m = re.match(r"\s*(?:@\[[^\]]*\]\s*)?(?:private\s+)?theorem\s+(\S+)", l)
             if m:
                 starts.append((i, m.group(1)))
-        for m in re.finditer(r"Props/%s\.lean:(\d+):\d+" % mod, log):
+        for m in re.finditer(r"error: \S*Props/%s\.lean:(\d+):\d+" % mod, log):   # errors only (warnings of healthy modules carry locations too)
             ln = int(m.group(1))
             name = None
             for s, n in starts:
-                if s <= ln:
+                if s <= ln + 2:      # an error reported at the docstring / attribute line just above the `theorem` keyword belongs to it
                     name = n
             if name:
                 name = name if name.startswith(pid + ".") else pid + "." + name
